@@ -324,6 +324,12 @@ def probe_class_facts(vinegar):
     for c in (E, U):
         c.__module__ = name
     mod.E, mod.U = E, U
+    lazy_calls = []
+
+    def module_getattr(attr):          # PEP 562: module-level __getattr__, a canary for "module code ran"
+        lazy_calls.append(attr)
+        raise AttributeError(attr)
+    mod.__getattr__ = module_getattr
     sys.modules[name] = mod
     try:
         def load(rec, old=False, inst=True):
@@ -358,7 +364,20 @@ def probe_class_facts(vinegar):
             for inst in (False, True):
                 if shape(load(rec, False, inst)) != shape(load(rec, True, inst)):
                     inert = False
-        return dict(by_new=by_new, keeps_names=keeps, unprintable=unprintable, oldstyle_inert=inert)
+        # is a peer-chosen class name looked up without running module code (PEP 562 __getattr__), and what does a name
+        # that is not text do on the module route
+        del lazy_calls[:]
+        g = load(((name, "NoSuchName"), (), (), "TB"))
+        if not isinstance(g, vinegar.GenericException):
+            raise Inexpressible("load: a name the module does not hold is not answered with the generic stand-in")
+        pure = not lazy_calls
+        try:
+            load(((name, 5), (), (), "TB"))
+            nontext_raises = False
+        except TypeError:
+            nontext_raises = True
+        return dict(by_new=by_new, keeps_names=keeps, unprintable=unprintable, oldstyle_inert=inert, lookup_pure=pure,
+                    nontext_raises=nontext_raises)
     finally:
         sys.modules.pop(name, None)
 
@@ -679,6 +698,11 @@ def gen_vinegar():
           "def instantiatesByNew : Bool := %s" % lean_bool(pf["by_new"]),
           "/-- `instantiate_oldstyle_exceptions` changes no outcome (probe records under both settings) -/",
           "def oldstyleSwitchInert : Bool := %s" % lean_bool(pf["oldstyle_inert"]),
+          "/-- under instantiate_custom_exceptions the class name is looked up in the module's OWN namespace: a module-level",
+          "`__getattr__` (PEP 562; a canary on the probe module) is not run with the peer-chosen name -/",
+          "def moduleLookupPure : Bool := %s" % lean_bool(pf["lookup_pure"]),
+          "/-- a class name that is not text raises TypeError on the module route (`getattr`), rather than being absent -/",
+          "def moduleLookupNonTextRaises : Bool := %s" % lean_bool(pf["nontext_raises"]),
           "/-- `str()` of a received exception: the class's own text (or this, when that raises), then",
           "`REMOTE_LINE_START (n) REMOTE_LINE_END` and the remote traceback -/",
           "def unprintable : List Nat := " + cps(pf["unprintable"]),
